@@ -9,6 +9,8 @@ StepStyled(e) == e.ev = "styled" /\
      LET wf == WindowFails(e, e.wins[k]) IN
      Report(e.case, wf, IF wf = {} THEN <<>> ELSE [kind |-> e.kind, stroke_box |-> e.stroke_box, window |-> e.wins[k].box,
                                                    drawn_box |-> IF e.wins[k].map = <<>> THEN <<>> ELSE e.wins[k].map[1]])) /\
+  (IF DOMAIN e.pproto = {} THEN TRUE
+   ELSE Report(e.case, SeqProtoFails(e.pproto.seq, e.pproto.proto), [kind |-> e.kind, what |-> "pixels_iterator_protocol", n |-> Len(e.pproto.seq)])) /\
   LET f == StyledFails(e) IN
   Report(e.case, f, IF f = {} THEN <<>> ELSE [kind |-> e.kind, shape_box |-> e.shape_box, fill_box |-> e.fill_box,
                                               stroke_box |-> e.stroke_box, diff |-> Differences(e)])
